@@ -29,7 +29,7 @@ pub const TEXT_SHAPES: [&str; 12] = [
 /// (suffix `@<n>k`), which turns "stack consumption grows with depth" into an observable crash
 /// long before 8 MiB would overflow, whatever the frame size of the build profile.
 pub const SMALL_STACK_APIS: [&str; 3] = ["iter@256k", "peeknext@256k", "pull+loader@256k"];
-pub const TREE_SHAPES: [&str; 5] = ["tree-seq", "tree-mapval", "tree-mapkey", "tree-seq-mlstr", "tree-mapval-mlstr"];
+pub const TREE_SHAPES: [&str; 7] = ["tree-seq", "tree-mapval", "tree-mapkey", "tree-seq-mlstr", "tree-mapval-mlstr", "tree-seq-2leaf", "tree-seq-mapleaf"];
 pub const TEXT_APIS: [&str; 9] = [
     "iter", "peeknext", "load", "lfs:Yaml", "lfs:YamlOwned", "lfs:MarkedYaml", "lfs:MarkedYamlOwned",
     "decode", "decode:utf16le",
@@ -251,7 +251,7 @@ pub fn effective_depth(shape: &str, d: usize) -> usize {
 /// the depth of a mapping chain; cap that one combination so that a scenario stays under a few
 /// seconds. Sequence chains are emitted compactly (`- - - x`) and are not capped.
 pub fn effective_depth_api(shape: &str, api: &str, d: usize) -> usize {
-    if api.starts_with("emit") && (shape == "tree-mapval" || shape == "tree-mapval-mlstr" || shape == "tree-seq-mlstr" || api == "emit:noncompact") {
+    if api.starts_with("emit") && (shape == "tree-mapval" || shape == "tree-mapval-mlstr" || api == "emit:noncompact") {
         d.min(20_000)
     } else {
         effective_depth(shape, d)
@@ -268,7 +268,16 @@ impl std::fmt::Write for NullWriter {
 
 fn tree_for(shape: &str, d: usize) -> Yaml<'static> {
     let d = effective_depth(shape, d);
-    let mut n = if shape.ends_with("-mlstr") {
+    let mut n = if shape == "tree-seq-2leaf" {
+        // the innermost collection has a SECOND entry: the emitter writes one indentation of the
+        // full depth (the output stays linear in the depth)
+        Yaml::Sequence(vec![Yaml::Value(Scalar::Integer(1)), Yaml::Value(Scalar::Integer(2))])
+    } else if shape == "tree-seq-mapleaf" {
+        let mut m = saphyr::Mapping::new();
+        m.insert(Yaml::Value(Scalar::String("a".into())), Yaml::Value(Scalar::Integer(1)));
+        m.insert(Yaml::Value(Scalar::String("b".into())), Yaml::Sequence(vec![Yaml::Value(Scalar::Integer(2))]));
+        Yaml::Mapping(m)
+    } else if shape.ends_with("-mlstr") {
         // a multi-line string leaf (the emitter's literal-block path under multiline_strings)
         Yaml::Value(Scalar::String("first line\nsecond line\n  indented\n".into()))
     } else {
@@ -276,7 +285,7 @@ fn tree_for(shape: &str, d: usize) -> Yaml<'static> {
     };
     for _ in 0..d {
         n = match shape {
-            "tree-seq" | "tree-seq-mlstr" => Yaml::Sequence(vec![n]),
+            "tree-seq" | "tree-seq-mlstr" | "tree-seq-2leaf" | "tree-seq-mapleaf" => Yaml::Sequence(vec![n]),
             "tree-mapval" | "tree-mapval-mlstr" => {
                 let mut m = saphyr::Mapping::new();
                 m.insert(Yaml::Value(Scalar::Integer(0)), n);
@@ -741,12 +750,16 @@ fn grid(cfg: &Config) -> Vec<Scn> {
                 })
                 .collect();
             d.extend(extra);
+            d.extend([255, 256, 257, 32_767, 32_768, 32_769, 65_535, 65_536, 65_537]);
         } else {
             // just below the depth from which the listed aborts are the known ones: an abort here
             // means the stack available per level has shrunk (larger frames, or a smaller stack)
             d.push(2900 + r.usize(600));
             let b = *r.pick(&[10_000usize, 30_000]);
             d.push(b - b / 10 + r.usize(b / 5 + 1));
+            // at and just past the widths of 15/16-bit counters (indentation widths, depths)
+            d.push(32_768 + r.usize(2));
+            d.push(65_536 + r.usize(2));
         }
         d
     };
@@ -795,7 +808,7 @@ fn grid(cfg: &Config) -> Vec<Scn> {
     // every repeated top-level construct (the instruction clock's input families), long and flat:
     // the pull interface on the small stack, the push interface and one full life cycle on 8 MiB
     for fam in crate::scale::FAMILIES {
-        if fam.starts_with("deep-nest-") {
+        if fam.contains("deep-nest") {
             // deep, not flat: the block shapes above cover nesting
             continue;
         }
